@@ -35,8 +35,10 @@ RULE = ("per element configuration (15 configurations of the 10 selective elemen
         "of selected values, B = ordered selection of 1..2 (quick) / 1..3 (thorough; size 3 "
         "sampled by seed) from the element's pool of unselected values (bare numbers, None, "
         "strings, tuples, lists, dicts, foreign objects, pairs with unrelated / empty / "
-        "disabling context, values of the wrong file type); one case runs ALL interleavings "
-        "of A and B plus A alone. Non-trivial: |A|>=1, |B|>=1 and at least 2 interleavings")
+        "disabling context, values of the wrong file type); one case = one A with a chunk of "
+        "<=8 B lists and runs ALL interleavings of A with each B plus A alone (for A=[]: "
+        "every single unselected value and the whole pool at once). Non-trivial: the case "
+        "ran at least 2 interleavings containing unselected values")
 ASSUMPTIONS = [
     "values the element selects and values it does not select are classified by the "
     "element's own documented predicate (a bare string IS selected by Write; only the "
@@ -65,7 +67,7 @@ MUST_REACH = ["lena/output/to_csv.py:ToCSV.run", "lena/output/write.py:Write.run
 MUST_COUNT = ["interleavings_run", "identity_checks", "snapshot_checks",
               "audit_marks_for_unselected_values", "selected_output_comparisons",
               "file_tree_comparisons"]
-MIN_NONTRIVIAL = {"quick": 1500, "thorough": 15000}
+MIN_NONTRIVIAL = {"quick": 300, "thorough": 2500}
 EXHAUSTIVE = {"quick": False, "thorough": False}
 LEVEL_TEXT = ("Systematic exploration: for each of the ten selective elements every "
               "interleaving of small lists of selected and unselected values (all ordered "
@@ -276,7 +278,7 @@ CONFIGS = {
     # a bare string IS selected by Write
     "Write": (["A_text_a", "A_text_b", "A_text_c", "A_bare_text", "A_selfwriter"],
               _without("str") + ["str_nowrite", "selfwriter_nowrite", "written_path",
-                                 "num_named", "hist_pair"], ["done.txt"]),
+                                 "num_named", "hist_pair"], ["done.txt", "fa.txt", "fc.dat"]),
     "Write_eu": (["A_text_a", "A_text_b", "A_text_c"],
                  ["int", "pair_other_output", "str_nowrite", "written_path", "foreign_pair"],
                  ["done.txt", "fa.txt"]),
@@ -311,7 +313,7 @@ CONFIGS = {
 ORDER = sorted(CONFIGS)
 
 INPUT_FILES = {
-    "done.txt": "already written", "fa.txt": "old content of fa",
+    "done.txt": "already written", "fa.txt": "old content of fa", "fc.dat": "text c",
     "t.tex": "TEMPLATE for \\VAR{ plot.name }\ntable {\\VAR{ output.filepath }}\nend",
     "t1.tex": "tex one", "t2.tex": "tex two", "t3.tex": "tex three",
     "t3.pdf": "OLD PDF three", "t1.pdf": "OLD PDF one", "b.pdf": "bystander pdf",
@@ -390,7 +392,7 @@ def cases(tier, seed):
             rng = gen.rng_for(seed, "C10", name, ai)
             if not alist:
                 # nothing selected: every single B, and the whole pool at once
-                yield {"el": name, "A": [], "B": list(bpool), "single": True}
+                yield {"el": name, "A": [], "Bs": [[b] for b in bpool] + [list(bpool)]}
                 continue
             blists = list(b1)
             nb2 = (30 if spawning else 80) if thorough else (6 if spawning else 24)
@@ -403,11 +405,12 @@ def cases(tier, seed):
                     blists.append(rng.sample(bpool, 3))
                 # random larger B with repeats of kinds
                 blists.append([rng.choice(bpool) for _ in range(rng.randint(4, 6))])
-            for blist in blists:
-                if len(alist) + len(blist) > 5 and len(blist) < 4:
-                    if spawning:
-                        continue
-                yield {"el": name, "A": alist, "B": blist}
+            if spawning:
+                blists = [b for b in blists if len(alist) + len(b) <= 5 or len(b) >= 4]
+            # one case (= one scratch directory) runs a chunk of B lists
+            size = 4 if spawning else 8
+            for i in range(0, len(blists), size):
+                yield {"el": name, "A": alist, "Bs": blists[i:i + size]}
 
 
 def interleavings(na, nb):
@@ -541,6 +544,9 @@ class Case(object):
         shutil.rmtree(self.root, ignore_errors=True)
 
 
+_REPORTED = {}      # mech -> violations listed by this worker process (see limit_repeats)
+
+
 def run_case(r, obs):
     from rv.props._out_stubs import is_write_event
     c = Case(r, obs)
@@ -548,14 +554,11 @@ def run_case(r, obs):
         if c.stubs is not None:
             c.stubs.install_path()
         name = c.name
-        anames, bnames = r["A"], r["B"]
+        anames = r["A"]
         multiset = name.startswith("LaTeXToPDF")
 
         def fresh_a():
             return [build_value(n, c.env) for n in anames]
-
-        def fresh_b():
-            return [build_value(n, c.env) for n in bnames]
 
         # ---- baseline: A alone
         c.reset_dir()
@@ -565,12 +568,8 @@ def run_case(r, obs):
         base_snap = [snap(v) for v in base_out]
         if multiset:
             base_snap = sorted(base_snap, key=repr)
-        desc0 = "%s A=%r B=%r" % (name, anames, bnames)
-
-        if r.get("single"):
-            blists = [[b] for b in bnames] + [list(bnames)]
-        else:
-            blists = [bnames]
+        desc0 = "%s A=%r" % (name, anames)
+        blists = r["Bs"]
         nint = 0
         for bl in blists:
             bnames_now = bl
@@ -634,6 +633,10 @@ def run_case(r, obs):
                           % (desc, sorted(set(tr.items()) ^ set(base_tree.items()))[:6],
                              sorted(base_tree)))
                 # 4. outputs for the selected values do not depend on B
+                if not same:
+                    # the remaining outputs are polluted by the copies of B values
+                    obs.count("selected_output_comparisons_skipped")
+                    continue
                 rest = [snap(v) for v in outs if id(v) not in bid]
                 if multiset:
                     rest = sorted(rest, key=repr)
@@ -641,9 +644,7 @@ def run_case(r, obs):
                 obs.check(rest == base_snap, "selected-output-depends-on-unselected:%s" % name,
                           "%s: outputs for selected values %r, A alone gives %r"
                           % (desc, rest, base_snap))
-        if anames and bnames and nint >= 2:
-            obs.nontrivial = True
-        elif r.get("single"):
+        if nint >= 2 and any(blists):
             obs.nontrivial = True
         # the baseline itself must have done something for selected values (sanity of pools)
         if anames:
@@ -651,3 +652,5 @@ def run_case(r, obs):
                       "%s: A alone produced no output" % desc0)
     finally:
         c.close()
+        from rv.props import _out_stubs
+        _out_stubs.limit_repeats(obs, _REPORTED, 4)
